@@ -79,6 +79,15 @@ func (ex *Exec) byteTerms(v Value) ([]Term, bool) {
 		if x.Bytes != nil {
 			return x.Bytes, true
 		}
+		if x.IsHexOf {
+			out := make([]Term, 0, 2*len(x.HexOf))
+			digit := func(n Term) Term { return Ite(Lt(n, IntC(10)), Add(n, IntC('0')), Add(n, IntC('a'-10))) }
+			for _, b := range x.HexOf {
+				q, r := ex.divModPos(b, big.NewInt(16))
+				out = append(out, ex.nameT(digit(q)), ex.nameT(digit(r)))
+			}
+			return out, true
+		}
 		return nil, false
 	case VSlice:
 		es := sliceElems(x)
@@ -91,7 +100,60 @@ func (ex *Exec) byteTerms(v Value) ([]Term, bool) {
 	return nil, false
 }
 
+// structEq: deep structural equality of two values of the same type.
+func (ex *Exec) structEq(a, b Value) Term {
+	switch x := a.(type) {
+	case VInt:
+		return Eq(x.T, b.(VInt).T)
+	case VBool:
+		return Eq(x.T, b.(VBool).T)
+	case VStr:
+		if y, ok := b.(VStr); ok {
+			return ex.strEq(x, y)
+		}
+		return ex.bytesEq(a, b)
+	case VStruct:
+		y := b.(VStruct)
+		r := BoolC(true)
+		for i := range x.F {
+			r = And(r, ex.structEq(x.F[i], y.F[i]))
+		}
+		return r
+	case VArr:
+		y := b.(VArr)
+		r := BoolC(true)
+		for i := range x.E {
+			r = And(r, ex.structEq(x.E[i], y.E[i]))
+		}
+		return r
+	case VSlice:
+		if y, ok := b.(VStr); ok {
+			return ex.bytesEq(x, y)
+		}
+		y := b.(VSlice)
+		if x.Len != y.Len { // nil and empty marshal identically
+			return BoolC(false)
+		}
+		r := BoolC(true)
+		xe, ye := sliceElems(x), sliceElems(y)
+		for i := range xe {
+			r = And(r, ex.structEq(xe[i], ye[i]))
+		}
+		return r
+	case VPtr:
+		y := b.(VPtr)
+		if x.O == nil || y.O == nil {
+			return BoolC(x.O == nil && y.O == nil)
+		}
+		return ex.structEq(x.load(), y.load())
+	}
+	panic(unsupported{fmt.Sprintf("structural equality on %T", a)})
+}
+
 func (ex *Exec) bytesEq(a, b Value) Term {
+	if ma, ok := a.(VOpaque); ok && ma.Kind == "marshaled" {
+		return ex.structEq(ma.Data.(Value), b.(VOpaque).Data.(Value))
+	}
 	sa, oka := a.(VStr)
 	sb, okb := b.(VStr)
 	if oka && okb && (sa.Atom != nil || sb.Atom != nil) {
@@ -399,6 +461,9 @@ func init() {
 		}
 		m["encoding/hex.DecodeString"] = func(ex *Exec, fr *frame, cc *ssa.CallCommon, a []Value) Value {
 			s := a[0].(VStr)
+			if s.IsHexOf {
+				return VTuple{termsToSlice(ex, append([]Term{}, s.HexOf...)), nilErr()}
+			}
 			if s.Atom != nil {
 				// atoms: hex text <-> bytes is a bijection on atoms; validity is an uninterpreted predicate
 				if s.Hexed {
@@ -447,13 +512,7 @@ func init() {
 				}
 				return concStr(fmt.Sprintf("%x", raw))
 			}
-			out := make([]Term, 0, 2*len(bs))
-			digit := func(n Term) Term { return Ite(Lt(n, IntC(10)), Add(n, IntC('0')), Add(n, IntC('a'-10))) }
-			for _, b := range bs {
-				q, r := ex.divModPos(b, big.NewInt(16))
-				out = append(out, ex.nameT(digit(q)), ex.nameT(digit(r)))
-			}
-			return VStr{Bytes: out}
+			return VStr{IsHexOf: true, HexOf: append([]Term{}, bs...)}
 		}
 		m["fmt.Sprintf"] = func(ex *Exec, fr *frame, cc *ssa.CallCommon, a []Value) Value { return ex.freshAtom("fmtstr") }
 		m["fmt.Sprint"] = m["fmt.Sprintf"]
